@@ -169,8 +169,29 @@ class RecListener(Listener):
     def OnMethodStop(self, searchData, solution, status):
         snap = snapshot_search(self.run.solver, False)
         objs = snap.pop("_objs", None)
+        self.run.flush_trials(objs)
         self.run.emit({"ev": "cb", "kind": "stop", "status": bool(status),
                        "sol": snapshot_solution(solution, objs), "same_sd": searchData is self.run.solver.searchData})
+
+
+def partial_listener(run, subset, full=True):
+    """A listener class derived from the base Listener that overrides exactly the callbacks in `subset`
+    (the others stay the base-class no-ops) and records what it is told."""
+    full_cls = RecListener
+    ns = {}
+    names = {"before": "BeforeMethodStart", "enditer": "OnEndIteration", "stop": "OnMethodStop"}
+    for k in subset:
+        ns[names[k]] = getattr(full_cls, names[k])
+    ns["__init__"] = full_cls.__init__
+    cls = type("PartialRecListener_" + "_".join(sorted(subset)), (Listener,), ns)
+    return cls(run, full)
+
+
+def _exc_info(e):
+    import os
+    import traceback
+    tb = traceback.extract_tb(e.__traceback__)
+    return {"type": type(e).__name__, "msg": str(e)[:200], "where": ["%s:%d" % (os.path.basename(t.filename), t.lineno) for t in tb][-4:]}
 
 
 class SolverRun:
@@ -179,7 +200,8 @@ class SolverRun:
     _tid = itertools.count(1)
 
     def __init__(self, problem, r=2.0, eps=0.01, limit=200, m=10, refine=False, fault=None, listener="rec",
-                 extra_listeners=(), tag="", full_snap=True, events=None):
+                 extra_listeners=(), tag="", full_snap=True, events=None, cbs=("before", "enditer", "stop"),
+                 extra_first=False, probing=False):
         self.tid = next(SolverRun._tid)
         self.events = events if events is not None else []
         self.rp = RecProblem(problem, fault=fault)
@@ -189,14 +211,19 @@ class SolverRun:
         self.flushed = 0
         self.solver = Solver(self.rp, parameters=self.params)
         self.listener = None
+        self.cbs = list(cbs) if listener == "rec" else []
+        if extra_first:
+            for l in extra_listeners:
+                self.solver.AddListener(l)
         if listener == "rec":
-            self.listener = RecListener(self, full=full_snap)
+            self.listener = RecListener(self, full=full_snap) if len(self.cbs) == 3 else partial_listener(self, self.cbs, full_snap)
             self.solver.AddListener(self.listener)
-        for l in extra_listeners:
-            self.solver.AddListener(l)
+        if not extra_first:
+            for l in extra_listeners:
+                self.solver.AddListener(l)
         self.emit({"ev": "init", "n": self.n, "m": int(m), "lo": qv(self.rp.lowerBoundOfFloatVariables),
                    "up": qv(self.rp.upperBoundOfFloatVariables), "r": q(float(r)), "eps": q(float(eps)),
-                   "limit": int(limit), "refine": bool(refine), "tag": tag})
+                   "limit": int(limit), "refine": bool(refine), "tag": tag, "cbs": self.cbs, "probing": bool(probing)})
 
     def emit(self, e):
         e["tid"] = self.tid
@@ -246,7 +273,8 @@ class SolverRun:
                 self.solver.DoGlobalIteration(k)
             except BaseException as e:      # noqa: B902
                 exc = type(e).__name__
-        return self._after_call("dgi", {"raised": exc or "none", "k": int(k)})
+                self.last_exc = _exc_info(e)
+        return self._after_call("dgi", {"raised": exc or "none", "k": int(k), "_exc": getattr(self, "last_exc", None) if exc else None})
 
     def solve(self):
         self.emit({"ev": "call", "name": "solve", "k": 0})
@@ -257,8 +285,9 @@ class SolverRun:
                 ret = self.solver.Solve()
             except BaseException as e:      # noqa: B902
                 exc = type(e).__name__
+                self.last_exc = _exc_info(e)
         out = buf.getvalue()
-        extra = {"raised": exc or "none", "printed_exc": "Exception was thrown" in out,
+        extra = {"_exc": getattr(self, "last_exc", None) if exc else None, "raised": exc or "none", "printed_exc": "Exception was thrown" in out,
                  "ret_is_results": ret is self.solver.GetResults() if ret is not None else False}
         sol = self._after_call("solve", extra)
         # reported value = objective at the reported point (re-evaluated through the unwrapped objective)
